@@ -279,26 +279,32 @@ func tssWorld(prop string) simcore.World {
 							for j := 0; j < 3; j++ {
 								if ntp.Time64FromTime(cand.Add(time.Duration(j))) == e.Rxt {
 									rxtIn = cand.Add(time.Duration(j))
+									r.Fault("rx-stamp-collides-with-record")
 									break
 								}
 							}
 						}
 					case 1: // older than everything (out of order / late packet)
 						rxtIn = base.Add(-time.Duration(tp.Range(0, 1000, "old")) * time.Millisecond)
+						r.Fault("rx-stamp-out-of-order")
 					case 2: // equal to this client's previous receive time
 						if t0, ok := w.lastRx[client]; ok {
 							rxtIn = t0
+							r.Fault("rx-stamp-repeated")
 						}
 					}
 					reading := rxtIn.Add(time.Duration(tp.Range(0, 50000, "proc")))
 					switch tp.Intn(6, "readkind") {
 					case 0:
 						reading = rxtIn // clock reading equal to the receive time
+						r.Fault("clock-reading-not-after-rx-stamp")
 					case 1:
 						reading = rxtIn.Add(-time.Duration(tp.Range(1, 2000, "back"))) // before it
+						r.Fault("clock-reading-not-after-rx-stamp")
 					case 2:
 						if tp.Bool(1, 2, "far") {
 							reading = now.Add(time.Second) // handled late
+							r.Fault("slow-listener")
 						}
 					}
 					var req ntp.Packet
@@ -381,10 +387,13 @@ func tssWorld(prop string) simcore.World {
 					case 0, 1:
 						kernel = false
 						txt1 = txt // the listener falls back to the software timestamp
+						r.Fault("tx-stamp-missing")
 					case 2:
 						txt1 = rxt // kernel timestamp equal to the receive time
+						r.Fault("tx-stamp-not-after-rx-stamp")
 					case 3:
 						txt1 = rxt.Add(-time.Duration(tp.Range(1, 1000, "kback"))) // earlier than the receive time
+						r.Fault("tx-stamp-not-after-rx-stamp")
 					}
 					ctx = &tssOpCtx{}
 					w.cur[tag] = ctx
